@@ -601,6 +601,21 @@ class World:
                     pair = [h, r.choice(anc)]
                     r.shuffle(pair)
                     script['calls'] += [['removeDescr', pair[0]], ['removeDescr', pair[1]]]
+            elif z < 0.965 and templates:
+                # a node is removed and something is created below it (or below one of its descendants), in either order: the
+                # commit-time consistency check has to refuse the transaction as a whole
+                tmpl = r.choice(templates)
+                anc = []
+                d = self.mdib.descriptions.handle.get_one(tmpl, allow_none=True)
+                while d is not None and d.parent_handle is not None:
+                    d = self.mdib.descriptions.handle.get_one(d.parent_handle, allow_none=True)
+                    if d is not None and d.parent_handle is not None:
+                        anc.append(d.Handle)
+                if anc:
+                    pair = [['removeDescr', anc[0] if r.random() < 0.6 else r.choice(anc)], ['addDescr', f'new{self.new_n}', tmpl, r.random() < 0.85]]
+                    self.new_n += 1
+                    r.shuffle(pair)
+                    script['calls'] += pair
             elif alld:
                 # related objects: parent of something already in the transaction
                 cand = [self.mdib.descriptions.handle.get_one(h, allow_none=True) for h in intx]
